@@ -27,7 +27,7 @@ pub type Parsed<T> = Result<T, JsonPathError>;
 ///
 /// Returns a variant of [crate::JsonPathParserError] if the parsing operation failed.
 pub fn parse_json_path(jp_str: &str) -> Parsed<JpQuery> {
-    if jp_str != jp_str.trim() {
+    if jp_str != jp_str.trim_matches(is_blank) {
         Err(JsonPathError::InvalidJsonPath(
             "Leading or trailing whitespaces".to_string(),
         ))
@@ -59,7 +59,7 @@ pub fn segments(rule: Pair<Rule>) -> Parsed<Vec<Segment>> {
 pub fn child_segment(rule: Pair<Rule>) -> Parsed<Segment> {
     match rule.as_rule() {
         Rule::wildcard_selector => Ok(Segment::Selector(Selector::Wildcard)),
-        Rule::member_name_shorthand => Ok(Segment::name(rule.as_str().trim())),
+        Rule::member_name_shorthand => Ok(Segment::name(rule.as_str())),
         Rule::bracketed_selection => {
             let mut selectors = vec![];
             for r in rule.into_inner() {
@@ -84,7 +84,7 @@ pub fn segment(child: Pair<Rule>) -> Parsed<Segment> {
     match child.as_rule() {
         Rule::child_segment => {
             let val = child.as_str().strip_prefix(".").unwrap_or_default();
-            if val != val.trim_start() {
+            if val != val.trim_start_matches(is_blank) {
                 Err(JsonPathError::InvalidJsonPath(format!(
                     "Invalid child segment `{}`",
                     child.as_str()
@@ -94,13 +94,13 @@ pub fn segment(child: Pair<Rule>) -> Parsed<Segment> {
             }
         }
         Rule::descendant_segment => {
-            if child
-                .as_str()
-                .chars()
-                .nth(2)
-                .ok_or(JsonPathError::empty(child.as_str()))?
-                .is_whitespace()
-            {
+            if is_blank(
+                child
+                    .as_str()
+                    .chars()
+                    .nth(2)
+                    .ok_or(JsonPathError::empty(child.as_str()))?,
+            ) {
                 Err(JsonPathError::InvalidJsonPath(format!(
                     "Invalid descendant segment `{}`",
                     child.as_str()
@@ -414,6 +414,11 @@ pub fn comparable(rule: Pair<Rule>) -> Parsed<Comparable> {
         }
         _ => Err(rule.into()),
     }
+}
+
+/// The blank space of RFC 9535 (`B`): space, tab, line feed, carriage return.
+fn is_blank(c: char) -> bool {
+    matches!(c, ' ' | '\t' | '\n' | '\r')
 }
 
 fn next_down(rule: Pair<Rule>) -> Parsed<Pair<Rule>> {
